@@ -7,6 +7,7 @@ package main
 import (
 	"bytes"
 	"fmt"
+	"io"
 	"io/ioutil"
 	"net"
 	"os"
@@ -22,6 +23,7 @@ import (
 	"github.com/q191201771/lal/pkg/logic"
 	"github.com/q191201771/lal/pkg/remux"
 	"github.com/q191201771/lal/pkg/rtmp"
+	"github.com/q191201771/lal/pkg/rtprtcp"
 	"github.com/q191201771/lal/pkg/rtsp"
 	"github.com/q191201771/lal/pkg/sdp"
 )
@@ -94,13 +96,15 @@ func (t *pushTarget) OnReadRtmpAvMsg(msg base.RtmpMsg) {
 	t.msgs = append(t.msgs, msg.Clone())
 }
 
-// hookRecorder counts what the stream hook is told, per input epoch
+// hookRecorder records what the stream hook is told, per input epoch: which published
+// message each OnMsg carried (compared with the message being published: type, timestamp, payload)
 type hookRecorder struct {
 	mu     sync.Mutex
 	epochs []*hookEpoch
+	msgs   *[]pubMsg
 }
 type hookEpoch struct {
-	msgs  int
+	msgs  []string
 	stops int
 }
 type hookCtx struct {
@@ -108,10 +112,240 @@ type hookCtx struct {
 	e *hookEpoch
 }
 
-func (h *hookCtx) OnMsg(msg base.RtmpMsg) { h.r.mu.Lock(); h.e.msgs++; h.r.mu.Unlock() }
-func (h *hookCtx) OnStop()                { h.r.mu.Lock(); h.e.stops++; h.r.mu.Unlock() }
+func (h *hookCtx) OnMsg(msg base.RtmpMsg) {
+	h.r.mu.Lock()
+	defer h.r.mu.Unlock()
+	name := "?"
+	ms := *h.r.msgs
+	if i := len(ms) - 1; i >= 0 && ms[i].t == msg.Header.MsgTypeId && ms[i].ts == msg.Header.TimestampAbs && bytes.Equal(ms[i].payload, msg.Payload) {
+		name = fmt.Sprintf("%d", i)
+	}
+	h.e.msgs = append(h.e.msgs, name)
+}
+func (h *hookCtx) OnStop() { h.r.mu.Lock(); h.e.stops++; h.r.mu.Unlock() }
+
+// parkConn is the client side of an RTSP command connection: requests are fed
+// one step at a time, and the harness can wait until the server's command loop
+// has consumed everything and is blocked in Read again.
+type parkConn struct {
+	mu      sync.Mutex
+	in      []byte
+	writes  [][]byte
+	parked  bool
+	closed  bool
+	wake    chan struct{}
+	closeCh chan struct{}
+}
+
+func newParkConn() *parkConn {
+	return &parkConn{wake: make(chan struct{}, 1), closeCh: make(chan struct{})}
+}
+
+func (c *parkConn) Read(b []byte) (int, error) {
+	for {
+		c.mu.Lock()
+		if len(c.in) > 0 {
+			n := copy(b, c.in)
+			c.in = c.in[n:]
+			c.mu.Unlock()
+			return n, nil
+		}
+		if c.closed {
+			c.mu.Unlock()
+			return 0, io.EOF
+		}
+		c.parked = true
+		c.mu.Unlock()
+		select {
+		case <-c.wake:
+		case <-c.closeCh:
+		}
+	}
+}
+
+func (c *parkConn) feed(b []byte) {
+	c.mu.Lock()
+	c.in = append(c.in, b...)
+	c.parked = false
+	c.mu.Unlock()
+	select {
+	case c.wake <- struct{}{}:
+	default:
+	}
+}
+
+// waitParked: the command loop has read all input and waits for more (or the connection was closed by it)
+func (c *parkConn) waitParked() bool {
+	deadline := time.Now().Add(20 * time.Second)
+	for time.Now().Before(deadline) {
+		c.mu.Lock()
+		ok := (c.parked && len(c.in) == 0) || c.closed
+		c.mu.Unlock()
+		if ok {
+			return true
+		}
+		time.Sleep(50 * time.Microsecond)
+	}
+	return false
+}
+
+func (c *parkConn) Write(b []byte) (int, error) {
+	c.mu.Lock()
+	defer c.mu.Unlock()
+	if c.closed {
+		return 0, io.ErrClosedPipe
+	}
+	c.writes = append(c.writes, append([]byte{}, b...))
+	return len(b), nil
+}
+
+func (c *parkConn) Close() error {
+	c.mu.Lock()
+	defer c.mu.Unlock()
+	if !c.closed {
+		c.closed = true
+		close(c.closeCh)
+	}
+	return nil
+}
+
+func (c *parkConn) all() []byte {
+	c.mu.Lock()
+	defer c.mu.Unlock()
+	var out []byte
+	for _, w := range c.writes {
+		out = append(out, w...)
+	}
+	return out
+}
+
+func (c *parkConn) isClosed() bool {
+	c.mu.Lock()
+	defer c.mu.Unlock()
+	return c.closed
+}
+
+func (c *parkConn) LocalAddr() net.Addr                { return fakeAddr{} }
+func (c *parkConn) RemoteAddr() net.Addr               { return fakeAddr{} }
+func (c *parkConn) SetDeadline(t time.Time) error      { return nil }
+func (c *parkConn) SetReadDeadline(t time.Time) error  { return nil }
+func (c *parkConn) SetWriteDeadline(t time.Time) error { return nil }
+
+// fanRtspObs is what logic.ServerManager is to a real RTSP command session: it routes DESCRIBE / PLAY to the group
+type fanRtspObs struct {
+	group *logic.Group
+	c     *fanConsumer
+}
+
+func (o *fanRtspObs) OnNewRtspPubSession(s *rtsp.PubSession) error { return base.ErrRtsp }
+func (o *fanRtspObs) OnNewRtspSubSessionDescribe(s *rtsp.SubSession) (bool, []byte) {
+	o.c.sub = s
+	return o.group.HandleNewRtspSubSessionDescribe(s)
+}
+func (o *fanRtspObs) OnNewRtspSubSessionPlay(s *rtsp.SubSession) error {
+	o.group.HandleNewRtspSubSessionPlay(s)
+	return nil
+}
+
+// fanSdp: the SDP every RTSP history announces: video PT 96 (H264 / H265 / a codec lal does not know), audio PT 97
+func fanSdp(v string, uniq string) []byte {
+	enc := "VP8"
+	switch v {
+	case "a":
+		enc = "H264"
+	case "h":
+		enc = "H265"
+	}
+	return []byte("v=0\r\no=- 0 0 IN IP4 127.0.0.1\r\ns=" + uniq + "\r\nc=IN IP4 127.0.0.1\r\nt=0 0\r\n" +
+		"m=video 0 RTP/AVP 96\r\na=rtpmap:96 " + enc + "/90000\r\na=control:streamid=0\r\n" +
+		"m=audio 0 RTP/AVP 97\r\na=rtpmap:97 MPEG4-GENERIC/44100/2\r\na=fmtp:97 profile-level-id=1;mode=AAC-hbr;sizelength=13;indexlength=3;indexdeltalength=3; config=1210\r\na=control:streamid=1\r\n")
+}
+
+// labelRtspStream parses what an RTSP subscriber's command connection received: RTSP
+// responses (the DESCRIBE response is labelled by the SDP it carries; SETUP / PLAY
+// responses must be 200 and are not shown) and interleaved RTP packets.
+func labelRtspStream(b []byte, sdps [][]byte, pkts [][]byte) string {
+	var out []string
+	for len(b) > 0 {
+		if b[0] == '$' {
+			if len(b) < 4 || len(b) < 4+(int(b[2])<<8|int(b[3])) {
+				out = append(out, "?short-interleaved")
+				break
+			}
+			n := int(b[2])<<8 | int(b[3])
+			payload := b[4 : 4+n]
+			name := "?pkt"
+			for j, p := range pkts {
+				if bytes.Equal(p, payload) {
+					want := -1
+					if len(p) >= 2 {
+						switch p[1] & 0x7f {
+						case 96:
+							want = 0
+						case 97:
+							want = 2
+						}
+					}
+					if int(b[1]) == want {
+						name = fmt.Sprintf("p%d", j)
+					} else {
+						name = fmt.Sprintf("?chan%d-p%d", b[1], j)
+					}
+					break
+				}
+			}
+			out = append(out, name)
+			b = b[4+n:]
+			continue
+		}
+		i := bytes.Index(b, []byte("\r\n\r\n"))
+		if i < 0 {
+			rest := b
+			if len(rest) > 24 {
+				rest = rest[:24]
+			}
+			out = append(out, "?"+hexOf(rest))
+			break
+		}
+		head := string(b[:i])
+		b = b[i+4:]
+		if !strings.HasPrefix(head, "RTSP/1.0 200 OK\r\n") {
+			out = append(out, "?status:"+strings.SplitN(head, "\r\n", 2)[0])
+			continue
+		}
+		cl := -1
+		for _, l := range strings.Split(head, "\r\n") {
+			if strings.HasPrefix(l, "Content-Length: ") {
+				cl = intTok(strings.TrimPrefix(l, "Content-Length: "))
+			}
+		}
+		if cl >= 0 {
+			if cl > len(b) {
+				out = append(out, "?short-body")
+				break
+			}
+			body := b[:cl]
+			b = b[cl:]
+			name := "?sdp"
+			for k, sd := range sdps {
+				if bytes.Equal(sd, body) {
+					name = fmt.Sprintf("d%d", k)
+				}
+			}
+			out = append(out, name)
+		}
+	}
+	if len(out) == 0 {
+		return "-"
+	}
+	return strings.Join(out, ",")
+}
 
 type fanConsumer struct {
+	left bool
+	pc   *parkConn
+	cmd  *rtsp.ServerCommandSession
+	sub  *rtsp.SubSession
 	broken bool
 	sdp    string
 	id   uint64
@@ -228,6 +462,7 @@ func runFanoutHistory(cfgTok, evTok string) string {
 	cfg.HttpflvConfig.SingleGopMaxFrameNum = kv["fm"]
 	cfg.HttptsConfig.GopNum = kv["tg"]
 	cfg.HttptsConfig.SingleGopMaxFrameNum = kv["tm"]
+	cfg.RtspConfig.OutWaitKeyFrameFlag = kv["rw"] != 0
 	var recDir string
 	if kv["rec"] != 0 {
 		d, err := ioutil.TempDir("", "lalprobe-rec-")
@@ -238,6 +473,20 @@ func runFanoutHistory(cfgTok, evTok string) string {
 		defer os.RemoveAll(recDir)
 		cfg.RecordConfig.EnableFlv = true
 		cfg.RecordConfig.FlvOutPath = recDir
+	}
+	var trecDir string
+	if kv["trec"] != 0 {
+		// MPEG-TS recording.  EnableMpegts also starts the real Rtmp2MpegtsRemuxer for the input; the histories that
+		// set trec publish fewer than 16 messages per input and never both audio and video, so its probe queue never
+		// drains and the only PAT/PMT / TS data the group sees are the blobs this harness injects (events A / T)
+		d, err := ioutil.TempDir("", "lalprobe-trec-")
+		if err != nil {
+			panic(err)
+		}
+		trecDir = d
+		defer os.RemoveAll(trecDir)
+		cfg.RecordConfig.EnableMpegts = true
+		cfg.RecordConfig.MpegtsOutPath = trecDir
 	}
 	var target *pushTarget
 	var targetSrv *rtmp.Server
@@ -273,7 +522,11 @@ func runFanoutHistory(cfgTok, evTok string) string {
 	consumers := map[uint64]*fanConsumer{}
 	var order []uint64
 	var msgs []pubMsg
-	var tsBlobs, patBlobs, sdpBlobs [][]byte
+	if hooks != nil {
+		hooks.msgs = &msgs
+	}
+	var tsBlobs, patBlobs, sdpBlobs, rtpPkts [][]byte
+	recvBufs := map[uint8][]byte{}
 	pushAttached := false
 	wantOpened := 0
 	var pushSegments [][]base.RtmpMsg // one per input epoch
@@ -296,7 +549,28 @@ func runFanoutHistory(cfgTok, evTok string) string {
 		return false
 	}
 
-	var recs []string
+	var recs, trecs []string
+	var recFiles, trecFiles []string
+	// one recording per input epoch: when the input ends the file is moved aside (a second epoch within the
+	// same second would reuse - and truncate - the file name) and read back at the END of the history, so that
+	// anything written to a recording that was not closed is seen
+	collectRecs := func() {
+		move := func(dir, pat string, list *[]string) {
+			if dir == "" {
+				return
+			}
+			files, _ := filepath.Glob(filepath.Join(dir, pat))
+			sort.Strings(files)
+			for _, fn := range files {
+				to := fmt.Sprintf("%s.%d.done", fn, len(*list))
+				if os.Rename(fn, to) == nil {
+					*list = append(*list, to)
+				}
+			}
+		}
+		move(recDir, "*.flv", &recFiles)
+		move(trecDir, "*.ts", &trecFiles)
+	}
 	stopInput := func() {
 		if pubSession == nil {
 			return
@@ -307,17 +581,7 @@ func runFanoutHistory(cfgTok, evTok string) string {
 		group.DelRtmpPubSession(pubSession)
 		pubConn.Close()
 		pubSession = nil
-		if recDir != "" {
-			// one recording per input epoch: read it back and remove it (a second
-			// epoch within the same second would reuse the file name)
-			files, _ := filepath.Glob(filepath.Join(recDir, "*.flv"))
-			sort.Strings(files)
-			for _, fn := range files {
-				b, _ := ioutil.ReadFile(fn)
-				recs = append(recs, string(b))
-				os.Remove(fn)
-			}
-		}
+		collectRecs()
 		if target != nil && pushAttached {
 			select {
 			case <-target.doneCh:
@@ -327,12 +591,35 @@ func runFanoutHistory(cfgTok, evTok string) string {
 		}
 	}
 
+	disposed := false
 	for _, e := range strings.Split(evTok, ";") {
 		if e == "" {
 			continue
 		}
 		f := strings.Split(e, ":")
+		if disposed {
+			return "bad-event-after-dispose " + e
+		}
 		switch f[0] {
+		case "X":
+			// server shutdown: Group.Dispose().  The publisher's connection is closed by it.  The group is NOT told
+			// afterwards that the publisher is gone (the process is exiting): Dispose itself must finalise the input
+			if target != nil && pushAttached {
+				group.VerifFlushPushSessions()
+			}
+			group.Dispose()
+			disposed = true
+			if pubSession != nil {
+				pubSession = nil
+				collectRecs()
+				if target != nil && pushAttached {
+					select {
+					case <-target.doneCh:
+					case <-time.After(30 * time.Second):
+					}
+					pushAttached = false
+				}
+			}
 		case "I":
 			if pubSession != nil {
 				break
@@ -369,37 +656,69 @@ func runFanoutHistory(cfgTok, evTok string) string {
 				group.DelRtmpPubSession(pubSession)
 				pubConn.Close()
 				pubSession = nil
-				if recDir != "" {
-					files, _ := filepath.Glob(filepath.Join(recDir, "*.flv"))
-					sort.Strings(files)
-					for _, fn := range files {
-						b, _ := ioutil.ReadFile(fn)
-						recs = append(recs, string(b))
-						os.Remove(fn)
-					}
-				}
+				collectRecs()
 				pushAttached = false
 			}
 		case "K":
 			group.Tick(1)
 		case "S":
+			if len(f) == 3 {
+				// a real SDP, parsed by lal as an RTSP publisher's ANNOUNCE would be
+				b := fanSdp(f[1], f[2])
+				ctx, err := sdp.ParseSdp2LogicContext(b)
+				if err != nil {
+					return "err-sdp"
+				}
+				sdpBlobs = append(sdpBlobs, b)
+				group.OnSdp(ctx)
+				for _, c := range consumers {
+					if c.pc != nil {
+						c.pc.waitParked()
+					}
+				}
+				break
+			}
 			b := bytesTok(f[1])
 			sdpBlobs = append(sdpBlobs, b)
 			group.OnSdp(sdp.LogicContext{RawSdp: b})
 		case "D":
+			// a real RTSP command session over a fake conn; DESCRIBE now, SETUP + PLAY at event Y
 			id := numTok(f[1])
 			if _, ok := consumers[id]; ok {
 				break
 			}
-			rs := rtsp.NewSubSession(base.UrlContext{}, nil)
-			_, raw := group.HandleNewRtspSubSessionDescribe(rs)
-			group.DelRtspSubSession(rs)
-			c := &fanConsumer{id: id, kind: 'd', conn: newFakeConn(nil), sdp: string(raw)}
+			c := &fanConsumer{id: id, kind: 'd', pc: newParkConn()}
+			old := rtsp.VerifC15SetCmdWriteChanSize(0)
+			c.cmd = rtsp.NewServerCommandSession(&fanRtspObs{group, c}, c.pc, rtsp.ServerAuthConfig{}, false, "")
+			rtsp.VerifC15SetCmdWriteChanSize(old)
+			go func() { _ = c.cmd.RunLoop() }()
+			c.pc.feed([]byte("DESCRIBE rtsp://127.0.0.1/live/s RTSP/1.0\r\nCSeq: 1\r\n\r\n"))
+			if !c.pc.waitParked() || c.sub == nil {
+				return "err-describe"
+			}
 			consumers[id] = c
 			order = append(order, id)
+		case "Y":
+			id := numTok(f[1])
+			c, ok := consumers[id]
+			if !ok || c.kind != 'd' || c.pc.isClosed() || c.sub.Stage.Load() != rtsp.SubSessionStageWriteSdp {
+				break // a client sends SETUP / PLAY only after it has the DESCRIBE response
+			}
+			c.pc.feed([]byte("SETUP rtsp://127.0.0.1/live/s/streamid=0 RTSP/1.0\r\nCSeq: 2\r\nTransport: RTP/AVP/TCP;unicast;interleaved=0-1\r\n\r\n" +
+				"SETUP rtsp://127.0.0.1/live/s/streamid=1 RTSP/1.0\r\nCSeq: 3\r\nTransport: RTP/AVP/TCP;unicast;interleaved=2-3\r\n\r\n" +
+				"PLAY rtsp://127.0.0.1/live/s RTSP/1.0\r\nCSeq: 4\r\n\r\n"))
+			if !c.pc.waitParked() || c.pc.isClosed() {
+				return "err-play"
+			}
+		case "R":
+			raw := bytesTok(f[1])
+			rtpPkts = append(rtpPkts, raw)
+			if pkt, err := rtprtcp.ParseRtpPacket(raw); err == nil {
+				group.OnRtpPacket(pkt)
+			}
 		case "B":
 			id := numTok(f[1])
-			if c, ok := consumers[id]; ok {
+			if c, ok := consumers[id]; ok && c.conn != nil {
 				c.conn.breakWrites()
 				c.broken = true
 			}
@@ -424,7 +743,22 @@ func runFanoutHistory(cfgTok, evTok string) string {
 				m.tag = append([]byte{}, l2t.GetEnsureWithoutSdf()...)
 			}
 			msgs = append(msgs, m)
+			// a real publisher session reuses its receive buffer for every message of a
+			// chunk stream ("the payload block is reused after the callback returns"):
+			// hand the group a payload that lives in such a per-type buffer
+			rb := recvBufs[m.t]
+			if cap(rb) < len(m.payload) {
+				rb = make([]byte, len(m.payload), 2*len(m.payload)+16)
+			}
+			rb = rb[:len(m.payload)]
+			copy(rb, m.payload)
+			recvBufs[m.t] = rb
+			msg.Payload = rb
 			group.OnReadRtmpAvMsg(msg)
+			// ... and scribble over it afterwards, as the next message on that chunk stream would
+			for i := range rb {
+				rb[i] ^= 0x5a
+			}
 		case "Jr", "Jf", "Jw", "Jt", "Jp":
 			id := numTok(f[1])
 			if _, ok := consumers[id]; ok {
@@ -452,7 +786,13 @@ func runFanoutHistory(cfgTok, evTok string) string {
 			if !ok {
 				break
 			}
+			c.left = true
 			switch c.kind {
+			case 'd':
+				if !c.pc.isClosed() {
+					group.DelRtspSubSession(c.sub)
+					c.pc.Close()
+				}
 			case 'r':
 				group.DelRtmpSubSession(c.rs)
 			case 'f', 'w':
@@ -474,6 +814,14 @@ func runFanoutHistory(cfgTok, evTok string) string {
 	}
 	// end of history: stop the input so that push targets and recordings are finalised
 	stopInput()
+	for _, fn := range recFiles {
+		b, _ := ioutil.ReadFile(fn)
+		recs = append(recs, string(b))
+	}
+	for _, fn := range trecFiles {
+		b, _ := ioutil.ReadFile(fn)
+		trecs = append(trecs, string(b))
+	}
 
 	// every relay-push session the target saw must have been closed by the end of the history
 	pushOpen := -1
@@ -531,15 +879,7 @@ func runFanoutHistory(cfgTok, evTok string) string {
 		}
 		switch c.kind {
 		case 'd':
-			lab = "-"
-			if len(c.sdp) > 0 {
-				lab = "?sdp"
-				for k, b := range sdpBlobs {
-					if string(b) == c.sdp {
-						lab = fmt.Sprintf("d%d", k)
-					}
-				}
-			}
+			lab = labelRtspStream(c.pc.all(), sdpBlobs, rtpPkts)
 		case 'r':
 			lab = labelStream(c.conn.all(), rtmpUnits)
 		case 'f':
@@ -634,13 +974,53 @@ func runFanoutHistory(cfgTok, evTok string) string {
 		}
 		parts = append(parts, "rec="+strings.Join(rl, "/"))
 	}
+	if disposed {
+		// every session the group still held must have been disposed (its connection closed)
+		var live []string
+		for _, id := range order {
+			c := consumers[id]
+			if c.left || c.kind == 'p' {
+				continue
+			}
+			open := false
+			if c.pc != nil {
+				open = !c.pc.isClosed()
+			} else {
+				open = !c.conn.isClosed()
+			}
+			if open {
+				live = append(live, fmt.Sprintf("%d", id))
+			}
+		}
+		if pubConn != nil && !pubConn.isClosed() {
+			live = append(live, "pub")
+		}
+		if len(live) == 0 {
+			live = []string{"-"}
+		}
+		parts = append(parts, "live="+strings.Join(live, ","))
+	}
+	if trecDir != "" {
+		var rl []string
+		for _, r := range trecs {
+			rl = append(rl, labelStream([]byte(r), tsUnits))
+		}
+		if len(rl) == 0 {
+			rl = []string{"-"}
+		}
+		parts = append(parts, "trec="+strings.Join(rl, "/"))
+	}
 	if target != nil {
 		parts = append(parts, fmt.Sprintf("popen=%d", waitPushClosed()))
 	}
 	if hooks != nil {
 		var hs []string
 		for _, e := range hooks.epochs {
-			hs = append(hs, fmt.Sprintf("%d:%d", e.msgs, e.stops))
+			ms := "-"
+			if len(e.msgs) > 0 {
+				ms = strings.Join(e.msgs, ",")
+			}
+			hs = append(hs, fmt.Sprintf("%s:%d", ms, e.stops))
 		}
 		if len(hs) == 0 {
 			hs = []string{"-"}
@@ -648,6 +1028,10 @@ func runFanoutHistory(cfgTok, evTok string) string {
 		parts = append(parts, "hook="+strings.Join(hs, "/"))
 	}
 	for _, c := range consumers {
+		if c.pc != nil {
+			c.pc.Close()
+			continue
+		}
 		c.conn.Close()
 	}
 	if len(parts) == 0 {
